@@ -82,3 +82,35 @@ Example C11_panic_inventory_is_the_audited_one :
    ("src/operator/percentile.rs", 1%N); ("src/operator/split.rs", 1%N); ("src/printer.rs", 8%N);
    ("src/typecheck.rs", 1%N)].
 Proof. reflexivity. Qed.
+
+(** "... with an `error:` line on stderr when this happens before any aggregation": a `sort` is not an aggregation.
+    The stages written after a sort run after it, inside an adapter; an adapter that follows no aggregation writes one
+    line per row its operator fails on ([count_errs]), an adapter behind a real aggregation writes none
+    (fix 64df92c: since the repair 01c24ac moved these stages behind the sort, their errors had been swallowed). *)
+Theorem C11_errors_after_a_sort_are_reported : forall st old t rest,
+  post_errs t (AAdapter st old :: rest) =
+  (adapter_errs st t + match adapter_process st t with Ok t' => post_errs t' rest | _ => 0 end)%nat.
+Proof.
+  intros st old t rest. cbn [post_errs agg_process_table]. destruct (adapter_process st t) as [t'| | |]; reflexivity.
+Qed.
+Print Assumptions C11_errors_after_a_sort_are_reported.
+
+Theorem C11_errors_after_an_aggregation_are_silent : forall g t rest, post_errs t (AGroup g :: rest) = 0%nat.
+Proof. reflexivity. Qed.
+Print Assumptions C11_errors_after_an_aggregation_are_silent.
+
+(** at most one line per row *)
+Theorem C11_at_most_one_error_line_per_row : forall rows o, (count_errs o rows <= length rows)%nat.
+Proof.
+  induction rows as [|r rows IH]; intros o; cbn [count_errs length]; [lia|].
+  destruct (op_step o r) as [o' out]. destruct out as [x| | |]; try lia; specialize (IH o'); lia.
+Qed.
+Print Assumptions C11_at_most_one_error_line_per_row.
+
+Example C11_errors_after_sort_example :
+  let lines := [lit "x=2 y=1"; lit "x=1 z=2"; lit "x=3 y=3"] in
+  let z1 := SLet (EArith AAdd (ECol (lit "z") []) (EVal (VInt 1))) (lit "w") in
+  nerr (run_pipeline (fun _ => true) [SLogfmt None; SSort [ECol (lit "x") []] false; z1] lines) = 2%nat /\
+  nerr (run_pipeline (fun _ => true) [SLogfmt None; z1; SSort [ECol (lit "x") []] false] lines) = 2%nat /\
+  nerr (run_pipeline (fun _ => true) [SLogfmt None; SAgg [(lit "_count", FCount None)] [(lit "x", ECol (lit "x") [])]; z1] lines) = 0%nat.
+Proof. vm_compute. repeat split. Qed.
